@@ -28,6 +28,7 @@ import (
 	"github.com/internetarchive/Zeno/internal/pkg/source/hq"
 	"github.com/internetarchive/Zeno/internal/pkg/stats"
 	"github.com/internetarchive/Zeno/internal/pkg/utils"
+	"github.com/internetarchive/Zeno/internal/pkg/verifhook"
 	"github.com/internetarchive/Zeno/pkg/models"
 )
 
@@ -118,6 +119,7 @@ func (p *preprocessor) worker(workerID string) {
 		case seed, ok := <-p.inputCh:
 			if ok {
 				logger.Debug("received seed", "seed", seed.GetShortID())
+				verifhook.At("pre.in", seed)
 
 				if err := seed.CheckConsistency(); err != nil {
 					panic(fmt.Sprintf("seed consistency check failed with err: %s, seed id %s, worker_id %s", err.Error(), seed.GetShortID(), workerID))
@@ -128,6 +130,7 @@ func (p *preprocessor) worker(workerID string) {
 				}
 
 				preprocess(workerID, seed)
+				verifhook.At("pre.done", seed)
 
 				select {
 				case <-p.ctx.Done():
